@@ -68,7 +68,7 @@
 EXTENDS Integers, Sequences, FiniteSets, TLC
 
 CONSTANTS Legacy,     \* set of strings, see above
-          Scope,      \* "repr" | "reprT" | "reprD" | "id" | "idT" | "idC" | "fail" | "conf" | "all": the slice of the universe explored
+          Scope,      \* "repr" | "reprT" | "reprD" | "id" | "idT" | "idC" | "fail" | "conf" | "misc" | "all": the slice of the universe explored
           MaxOps      \* history length bound
 
 (* ---------------------------------------------------------------- universe *)
@@ -94,14 +94,16 @@ BearHDs == CASE In({"repr"})  -> {"lA", "uA0", "uA1", "cA"}
              [] In({"reprT"}) -> {"lA", "cA"}        \* replayed under every theme of the concretiser (class, NewType, Enum, validator)
              [] In({"reprD"}) -> {"lD", "cD"}
              [] In({"fail"})  -> {"rU", "rA", "b1", "bT"}
-             [] In({"conf"})  -> {"fl", "eA0", "eA1", "L1", "LT"}
+             [] In({"conf"})  -> {"fl"}
+             [] In({"misc"})  -> {"eA0", "eA1", "L1", "LT"}       \* ==-equal spellings, ==-unequal look-alikes
              [] In({"all"})   -> {"lA", "uA0", "uA1", "cA", "lD", "rU", "rA", "b1", "bT", "fl", "aA", "eA0", "eA1", "L1", "LT"}
              [] OTHER         -> {}
 DecoHDs == CASE In({"repr"})  -> {"lA", "uA0"}
              [] In({"reprT"}) -> {"lA"}
              [] In({"reprD"}) -> {"lD"}
              [] In({"fail"})  -> {"rU", "rA", "b1"}
-             [] In({"conf"})  -> {"fl", "eA1"}
+             [] In({"conf"})  -> {"fl"}
+             [] In({"misc"})  -> {"eA1"}
              [] In({"all"})   -> {"lA", "uA0", "lD", "rU", "rA", "fl", "b1", "eA1"}
              [] OTHER         -> {}
 ConfsS  == IF In({"conf", "all"}) THEN {"c0", "c1"} ELSE {"c0"}     \* c1 = BeartypeConf(is_pep484_tower=True)
@@ -119,7 +121,7 @@ LeHeldHDs == IF In({"id", "idT", "all"}) THEN {"cA"} ELSE {}
 RedefS  == CASE In({"repr", "reprT"}) -> {"A"} [] In({"reprD"}) -> {"D"} [] In({"fail"}) -> {"U", "A"}
              [] In({"all"}) -> {"A", "D", "U"} [] OTHER -> {}
 ClearS  == In({"repr", "reprT", "reprD", "id", "idC", "all"})
-ProbeNames == CASE In({"repr", "reprT", "conf"}) -> {"A"} [] In({"reprD"}) -> {"D"} [] In({"fail"}) -> {"A", "U"}
+ProbeNames == CASE In({"repr", "reprT", "misc"}) -> {"A"} [] In({"reprD"}) -> {"D"} [] In({"fail"}) -> {"A", "U"}
                 [] In({"all"}) -> {"A", "D", "U"} [] OTHER -> {}
 MaxFuncs == 2
 
@@ -156,7 +158,9 @@ Sat(p, cv, conf) ==
     [] cv.sh = "uni"  -> (p.w = "bare" /\ p.n = cv.n /\ p.g = cv.g) \/ p.w = "none"
     [] cv.sh = "obj"  -> TRUE
     [] cv.sh = "flt"  -> p.w = "float" \/ (p.w \in {"int", "true"} /\ conf = "c1")       \* bool is an int
-    [] cv.sh = "lit"  -> (cv.n = "1" /\ p.w = "int") \/ (cv.n = "T" /\ p.w = "true")
+    [] cv.sh = "lit"  -> (cv.n = "1" /\ p.w \in {"int", "true"}) \/ (cv.n = "T" /\ p.w = "true")
+                         \* as beartype checks Literal: isinstance(obj, type(member)) and obj == member, so True passes Literal[1]
+                         \* (whether it should is C01's question; the memo tables only need the semantics as they are)
     [] OTHER -> FALSE
 Ans(exc, acc) == [exc |-> exc, acc |-> acc]
 NoAns == Ans("none", {})
@@ -266,7 +270,7 @@ Decorate(dn, conf) ==
           /\ funcs' = Append(funcs, [dn |-> dn, h |-> h, conf |-> conf, cv |-> IF h.sh = "ref" THEN HKey(h) ELSE ce.cv,
                                      res |-> IF h.sh = "ref" THEN -1 ELSE -2])
           /\ dedup' = co.dd /\ reprc' = co.rc /\ sane' = ce.sn /\ expr' = ce.ex
-          /\ last' = Rec("decorate", dn, conf, NoAns, NoAns, FALSE, ce.hit, FALSE, co.swap)
+          /\ last' = Rec("decorate", dn, conf, NoAns, NoAns, TRUE, ce.hit, FALSE, co.swap)
   /\ UNCHANGED <<gen, tester, raiser>> /\ WrapUnch
 
 \* f(probe) for every probe object.  A forward reference is resolved by the callable's proxy at the first call that
